@@ -29,6 +29,12 @@ def run_C01(tier, seed):
     sc, _ = stages.pick_scenarios("complete", tier, seed, lambda s: honest(s) and nm_of(s) <= (8 if q else 32), 14 if q else 120, prop="C01")
     res.append(stages.trace_stage("C01", "prove", sc, seed, module="TraceProve", consts=TP_CONSTS, calls="prove"))
     res.append(stages.trace_stage("C01", "verify", sc, seed, module="TraceVerify", calls="verify"))
+    # honest triples stay accepted however many of them are verified together (beyond the chunk limit, mixed sizes)
+    big = stages.api_stage("C01", "batch", tier, seed, groups=("rist",), scale="2:256", scale_min=0, limit=25 if q else 400,
+                           filter_fn=lambda s: s["expect"]["verify"] == "ok" and s["sc"]["skew"] == [0, 0, 0],
+                           must_fn=lambda s: any(m["n"] == 64 for m in s["sc"]["members"]))
+    big.name = "api:batch@256"
+    res.append(big)
     return res
 
 
@@ -39,6 +45,18 @@ def nm_of(s):
 def verifies(s):
     """scenarios whose verify_batch call is reached with decodable proofs"""
     return s["expect"]["prove"] == "ok" and all(m["mut"]["kind"] not in ("bytes",) and m["mut"]["how"] != "noncanon" for m in s["sc"]["members"])
+
+
+def reaches_msm(s):
+    """batches whose verification gets as far as the final check: consistent members, no structural refusal"""
+    ms = s["sc"]["members"]
+    f = ms[0]["v"]
+    return (s["expect"]["prove"] == "ok" and s["sc"]["skew"] == [0, 0, 0] and s["sc"]["mode"] != "RecoverOnly" and len(ms) >= 2
+            and all(m["v"]["n"] == f["n"] and m["v"]["t"] == f["t"] and m["v"]["pgH"] == f["pgH"] and m["v"]["pgG"] == f["pgG"]
+                    and m["n"] == m["v"]["n"] and m["t"] == m["v"]["t"] for m in ms)
+            and all(m["mut"]["kind"] == "none" or (m["mut"]["kind"] == "scalar" and m["mut"]["how"] != "noncanon")
+                    or (m["mut"]["kind"] == "point" and m["mut"]["how"] in ("rand", "other")) for m in ms)
+            and len({m.get("bseed", 0) for m in ms if m.get("bseed", 0) != 0}) == 0)
 
 
 def run_C02(tier, seed):
@@ -79,12 +97,12 @@ def run_C03(tier, seed):
     # every behaviour at model scale on both groups, then with every model chunk expanded to the real chunk size
     a = stages.api_stage("C03", "batch", tier, seed, negative=neg, limit=1200 if Q(tier) else None)
     b = stages.api_stage("C03", "batch", tier, seed, groups=("rist",), scale="2:256", scale_min=0,
-                         limit=400 if Q(tier) else None, must_fn=lambda s: s["sc"]["skew"] != [0, 0, 0])
+                         limit=400 if Q(tier) else 5000,
+                         must_fn=lambda s: s["sc"]["skew"] != [0, 0, 0] or any(m["n"] == 64 for m in s["sc"]["members"]) or any(m.get("bseed") == 7 for m in s["sc"]["members"]))
     b.name = "api:batch@256"
     # the orchestration with batch size, CHUNK SIZE, input lengths, validity and class of every member symbolic
     # the batch equation is a proper random combination: non-zero, pairwise distinct, response-bound weights on every member
-    tb, _ = stages.pick_scenarios("batch", tier, seed, lambda s: verifies(s) and len(s["sc"]["members"]) >= 2 and nm_of(s) <= 16 and s["sc"]["skew"] == [0, 0, 0]
-                                  and s["sc"]["mode"] != "RecoverOnly", 8 if Q(tier) else 80, prop="C03")
+    tb, _ = stages.pick_scenarios("batch", tier, seed, lambda s: reaches_msm(s) and nm_of(s) <= 16, 8 if Q(tier) else 80, prop="C03")
     d = stages.trace_stage("C03", "combination", tb, seed, module="TraceVerify", calls="verify")
     c = stages.apalache_stage("C03", "BatchUnbounded", "C03", 12, cinit="CInit", negative_cinits=("CInitLoopOnly", "CInitFirstChunk"),
                               note="K in 0..10, chunk size in 1..10, the three input lengths, validity and bit-length class of every member are symbolic")
@@ -100,8 +118,7 @@ def run_C05(tier, seed):
     rep_ = lambda s: sum(1 for m in s["sc"]["members"] if m.get("bseed") == 7) >= 2
     res.append(stages.api_stage("C05", "batch", tier, seed, filter_fn=rep_))
     # alterations in two members must not be able to offset each other: proper weights on every batch (C08's check)
-    tb, _ = stages.pick_scenarios("batch", tier, seed, lambda s: verifies(s) and len(s["sc"]["members"]) >= 2 and nm_of(s) <= 16 and s["sc"]["skew"] == [0, 0, 0]
-                                  and s["sc"]["mode"] != "RecoverOnly", 6 if Q(tier) else 60, prop="C05")
+    tb, _ = stages.pick_scenarios("batch", tier, seed, lambda s: reaches_msm(s) and nm_of(s) <= 16, 6 if Q(tier) else 60, prop="C05")
     res.append(stages.trace_stage("C05", "weights", tb, seed, module="TraceVerify", calls="verify"))
     return res
 
@@ -158,7 +175,7 @@ def run_C08(tier, seed):
     res = [stages.weights_stage("C08"),
            stages.simple_mc_stage("C08", "MC_Transcript", stages.transcript_cfg(), [("weight_blind_to_" + o, stages.transcript_cfg(omit=o), "WeightBound") for o in ("r1", "s1", "d1")], name="weight-binding")]
     # provenance and homogeneity of the weights actually used, on multi-member batches, in 252-bit arithmetic
-    sc, _ = stages.pick_scenarios("batch", tier, seed, lambda s: verifies(s) and len(s["sc"]["members"]) >= 2 and nm_of(s) <= 16 and s["sc"]["skew"] == [0, 0, 0], 14 if q else 150, prop="C08")
+    sc, _ = stages.pick_scenarios("batch", tier, seed, lambda s: reaches_msm(s) and nm_of(s) <= 16, 14 if q else 150, prop="C08")
     sc2, _ = stages.pick_scenarios("recover", tier, seed, lambda s: verifies(s) and len(s["sc"]["members"]) >= 2 and s["sc"]["mode"] != "RecoverOnly" and s["sc"]["members"][0]["t"] == 6, 8 if q else 60, prop="C08")
     res.append(stages.trace_stage("C08", "weights", sc + sc2, seed, module="TraceVerify", calls="verify"))
     # a response scalar changed => the proof's contribution to the weight transcript and all weights change
